@@ -5,6 +5,7 @@ import (
 	"strings"
 )
 
+const ccp = "connectrpc.com/conformance/internal/app/connectconformance."
 const rc = "connectrpc.com/conformance/internal/app/referenceclient."
 
 func registry() []PropSpec {
@@ -39,9 +40,10 @@ func registry() []PropSpec {
 				{Pkg: pkgCC, Func: "H05a_q", Unwind: 12, Note: "filterGRPCImplTestCases on 2 permutations with symbolic protocol, HTTP version, codec, compression (4 values), TLS marker, raw request, raw response, for every (clientIsGRPC, serverIsGRPC)"},
 				{Pkg: pkgCC, Func: "H05f_q", Unwind: 12, Recur: 10, Note: "testCaseFilter.apply on 3 names with run / skip tries each absent or one of 3 pattern sets"},
 				{Pkg: pkgCC, Func: "H11_q", Unwind: 10, HookLimit: 3, Note: "request completion and server-instance match inside runTestCasesForServer (shared with C11)"},
+				{Pkg: pkgCC, Func: "H05r_q", Unwind: 130, Recur: 12, Only: []string{ccp + "runTestCasesForServer=vModelRunBatch", ccp + "runClient=vModelRunClient", ccp + "runInProcess=vModelRunInProcess", ccp + "runCommand=vModelRunCommand", "golang.org/x/sync/semaphore.NewWeighted=vModelSemNew", "(*golang.org/x/sync/semaphore.Weighted).Acquire=vModelSemAcquire", "(*golang.org/x/sync/semaphore.Weighted).Release=vModelSemRelease"}, Note: "run() itself in server mode (reference client + gRPC reference client against one server command): one suite of 2 unary tests, 2 config cases (gRPC over HTTP/2, Connect over HTTP/1.1) = 2 server instances, --run and --skip each absent or one of 3 pattern sets (one of them matching only gRPC-peer names), --max-servers 1..2; processes cut away (scripted client, batch recorder, counting semaphore)"},
 			},
-			Stubs: []string{"Any.UnmarshalNew = table lookup (real Any natively)", "proto.Clone = field-wise copy", "see C11 for the batch harness"},
-			Out:   []string{"--max-servers bound, server lifetimes, termination of run(), goroutine interleavings between batches (semaphores, goroutines and OS processes are not encodable)"},
+			Stubs: []string{"Any.UnmarshalNew = table lookup (real Any natively)", "proto.Clone = field-wise copy", "see C11 for the batch harness", "H05r: runClient = scripted client, runTestCasesForServer = recorder that records its cases as setup failures (natively the real one, with a server command that does not exist), runInProcess / runCommand = no starter, x/sync semaphore = counter whose Acquire blocks for good when no slot is free"},
+			Out:   []string{"--max-servers bound under real concurrency, server lifetimes after SIGTERM, client death between batches, goroutine interleavings between batches (H05r runs each spawned batch to completion at the spawn point)"},
 		},
 		{
 			ID: "C07",
